@@ -1222,6 +1222,37 @@ func (ar *axisRun) run(entry *ssa.Function, args []pval, cell *axisCell, init bo
 				}
 				return
 			}
+			if strings.HasSuffix(key, ".SoftMax") || strings.HasSuffix(key, ".LogSoftMax") {
+				// gorgonia's kernel for the LAST axis takes every row's maximum from the first element of the whole
+				// tensor (defaultengine_softmax.go): it must not be reached with more than one row
+				if len(operands) >= 2 && operands[1].k == pInt {
+					var shp []int64
+					switch t := operands[0]; t.k {
+					case pTensor:
+						if t.i == 0 {
+							shp = cell.extents
+						}
+					case pShaped:
+						for _, e := range h.lists[t.j] {
+							if e.k != pInt {
+								shp = nil
+								break
+							}
+							shp = append(shp, e.i)
+						}
+					}
+					if len(shp) > 0 {
+						ax := operands[1].i
+						if ax < 0 {
+							ax += int64(len(shp))
+						}
+						rows := prodInts(shp[:len(shp)-1])
+						if ax == int64(len(shp))-1 && rows > 1 {
+							ar.add("softmax-kernel", call.Pos(), fn, cell, fmt.Sprintf("shape %s, axis %d", fmtInts(shp), operands[1].i))
+						}
+					}
+				}
+			}
 			ct, ok := axisContracts[key]
 			if !ok {
 				return
@@ -1733,6 +1764,8 @@ func ruleAxisAccept(c *Ctx, prop string) {
 				c.violate("R9", key, c.pos(pos), fmt.Sprintf("with %s the axes handed to gorgonia are %s, not %s: other axes than the requested ones are used", h.cell.desc, h.got, fmtInts(h.cell.norm)))
 			case "accepted":
 				c.violate("R9", key, c.pos(pos), "an invalid request is answered with a tensor instead of an error: with "+h.cell.desc+" the operator returns a result and a nil error")
+			case "softmax-kernel":
+				c.violate("R9", key, c.pos(pos), fmt.Sprintf("with %s gorgonia's softmax is called on a tensor of %s: that is its last-axis kernel with more than one row, which takes every row's maximum from the first element of the whole tensor (NaN / overflow for large values, other rows influence the result)", h.cell.desc, h.got))
 			case "wrong-shape":
 				c.violate("R9", key, c.pos(pos), fmt.Sprintf("with %s the shape handed to Reshape is %s, ONNX prescribes %s", h.cell.desc, h.got, fmtInts(h.cell.shape)))
 			}
